@@ -121,11 +121,7 @@ func (e *Env) objVal(obj types.Object) *Val {
 		}
 		return v
 	case *types.Var:
-		v := &Val{T: o.Type()}
-		for _, a := range e.tr.W.flatten(o.Type()) {
-			v.A = append(v.A, e.tr.declare("G."+o.Pkg().Path()+"."+o.Name()+a.Path, a.Sort))
-		}
-		return v
+		return &Val{T: o.Type(), A: e.tr.globalAtoms(o.Pkg().Path()+"."+o.Name(), o.Type())}
 	}
 	e.fail("unsupported object %v", obj)
 	return nil
@@ -546,6 +542,9 @@ func (e *Env) call(n ECall) *Val {
 	case "fresh":
 		v := arg(0)
 		return boolVal("(>= " + v.A[0] + " " + e.allocOld + ")")
+	case "wasAllocated":
+		v := arg(0)
+		return boolVal("(isold " + v.A[0] + " " + e.allocOld + ")")
 	case "allocated":
 		v := arg(0)
 		return boolVal("(< " + v.A[0] + " " + e.tr.cur(e.st, compAlloc) + ")")
@@ -797,6 +796,37 @@ func (e *Env) cnt(n ECall) *Val {
 		rec := fmt.Sprintf("(define-fun-rec %s (%s (b Int) (o Int) (n Int)) Int (ite (<= n 0) 0 (+ (%s %s b o (- n 1)) (ite %s 1 0))))",
 			fname, strings.Join(formals, " "), fname, strings.Join(fargs, " "), body.one())
 		e.tr.emit(rec)
+		// frame lemma (proved once by induction, see lemma/cntFrame): two heaps that agree on the predicate for the
+		// first n elements give the same count
+		{
+			var d1, d2, a1, a2 []string
+			sub1 := body.one()
+			sub2 := body.one()
+			for _, name := range fst.FormalOrder {
+				f := fst.Formal[name]
+				d1 = append(d1, "("+f+"x "+e.tr.comps[name]+")")
+				d2 = append(d2, "("+f+"y "+e.tr.comps[name]+")")
+				a1 = append(a1, f+"x")
+				a2 = append(a2, f+"y")
+			}
+			ren := func(s, suffix string) string {
+				// formals are fc<k>; rename whole tokens
+				for i := len(fst.FormalOrder) - 1; i >= 0; i-- {
+					f := fst.Formal[fst.FormalOrder[i]]
+					s = replaceToken(s, f, f+suffix)
+				}
+				return s
+			}
+			sub1 = replaceToken(replaceToken(replaceToken(ren(sub1, "x"), "b", "b1"), "o", "o1"), "n", "(+ i 1)")
+			sub2 = replaceToken(replaceToken(replaceToken(ren(sub2, "y"), "b", "b2"), "o", "o2"), "n", "(+ i 1)")
+			pre := "(forall ((i Int)) (=> (and (<= 0 i) (< i n)) (= " + sub1 + " " + sub2 + ")))"
+			c1 := "(" + fname + " " + strings.Join(a1, " ") + " b1 o1 n)"
+			c2 := "(" + fname + " " + strings.Join(a2, " ") + " b2 o2 n)"
+			ax := "(forall (" + strings.Join(d1, " ") + " " + strings.Join(d2, " ") + " (b1 Int) (o1 Int) (b2 Int) (o2 Int) (n Int)) (! (=> " + pre + " (= " + c1 + " " + c2 + ")) :pattern (" + c1 + " " + c2 + ")))"
+			e.tr.emit("(assert " + ax + ")")
+			e.tr.lemmaVCs = append(e.tr.lemmaVCs, lemmaVC{name: "lemma/cntFrame[" + id.Name + "]", rec: rec,
+				decls: strings.Join(d1, " ") + " " + strings.Join(d2, " "), pre: pre, c1: c1, c2: c2, fname: fname, a1: strings.Join(a1, " "), a2: strings.Join(a2, " ")})
+		}
 		info = &cntInfo{name: fname, comps: actualComps}
 		if e.tr.cntFuncs == nil {
 			e.tr.cntFuncs = map[string]*cntInfo{}
@@ -872,4 +902,29 @@ func (e *Env) allElems(n ECall) *Val {
 	ne := e.with(vars)
 	body := ne.call(ECall{Fn: id.Name, Args: args})
 	return boolVal("(forall ((" + a + " Int)) (! " + implies(inRange(a), body.one()) + " :pattern (" + pa + ")))")
+}
+
+type lemmaVC struct {
+	name, rec, decls, pre, c1, c2, fname, a1, a2 string
+}
+
+// replaceToken replaces whole-token occurrences (delimited by space or parentheses) of old by new.
+func replaceToken(s, old, nw string) string {
+	var sb strings.Builder
+	i := 0
+	for i < len(s) {
+		if strings.HasPrefix(s[i:], old) {
+			before := i == 0 || s[i-1] == ' ' || s[i-1] == '('
+			j := i + len(old)
+			after := j >= len(s) || s[j] == ' ' || s[j] == ')'
+			if before && after {
+				sb.WriteString(nw)
+				i = j
+				continue
+			}
+		}
+		sb.WriteByte(s[i])
+		i++
+	}
+	return sb.String()
 }
